@@ -178,6 +178,20 @@ Section WitnessProofs.
     rewrite run_state_cons. apply IH. destruct (step st o) as [st1 r] eqn:E. eapply wf_step; eauto.
   Qed.
 
+  (* the table only ever holds bytes that some Update of the execution submitted for that log *)
+  Lemma stored_was_submitted : forall ops st id raw,
+    lookup (run_state st ops) id = Some raw ->
+    lookup st id = Some raw \/ exists pf f, In (OUpdate id raw pf f) ops.
+  Proof.
+    induction ops as [|o t IH]; intros st id raw Hl; [left; exact Hl|].
+    rewrite run_state_cons in Hl. destruct (step st o) as [st1 w] eqn:Es. cbn [fst] in Hl.
+    destruct (IH st1 id raw Hl) as [A|(pf & f & A)]; [| right; exists pf, f; right; exact A].
+    destruct (step_state _ _ _ _ Es) as [->|(id1 & raw1 & pf & f & next & -> & _ & -> & _)]; [left; exact A|].
+    destruct (bytes_eq_dec id id1) as [->|Hne].
+    - rewrite lookup_store_same in A. injection A as ->. right. exists pf, f. left. reflexivity.
+    - rewrite lookup_store_other in A by exact Hne. left. exact A.
+  Qed.
+
   Lemma held_lookup st id p : held st id = Some p -> exists raw, lookup st id = Some raw /\ parse raw id = inl p.
   Proof.
     unfold WitnessModel.held. destruct (lookup st id) as [raw|]; [|discriminate].
